@@ -277,4 +277,14 @@ theorem c02_most_specific_complete {V : Type} (m : V → List String → List St
       · have := (hall₁ n hn caps hm h).1
         rw [hacc] at this; cases this
 
+/-- **Which flag counts when rules sharing an expression disagree**: "backtracking is enabled for the failed
+expression" means the setting of the rule added to that expression LAST (rules of one rule set are added in rule-set
+order) — every successful addition sets the flag of the node, whatever it was. -/
+theorem c02_backtracking_flag_is_last_added (canAdd : List V → V → Bool) (t t' : Table V) (pat : List PTok)
+    (keys : List String) (v : V) (bt : Bool) (h : addPat canAdd t pat keys v bt = .ok t') :
+    (getNode t' pat).map (·.bt) = some bt := by
+  rw [addPat_getNode canAdd t t' pat keys v bt h pat]
+  simp only [if_true]
+  cases getNode t pat <;> rfl
+
 end Heimdall.Props.C02
